@@ -1,6 +1,7 @@
 package introspection
 
 import (
+	"encoding/json"
 	"strings"
 
 	"github.com/wundergraph/graphql-go-tools/v2/pkg/ast"
@@ -251,8 +252,7 @@ func (i *introspectionVisitor) EnterScalarTypeDefinition(ref int) {
 		return
 	}
 
-	url := i.definition.ValueContentString(argValue)
-	typeDefinition.SpecifiedByURL = &url
+	typeDefinition.SpecifiedByURL = i.stringValue(argValue)
 }
 
 func (i *introspectionVisitor) EnterUnionTypeDefinition(ref int) {
@@ -399,11 +399,24 @@ func (i *introspectionVisitor) TypeRef(typeRef int) TypeRef {
 	}
 }
 
+// stringValue returns the string a String-typed directive argument denotes: escape sequences
+// decoded, block strings dedented, nil for null (and for anything that is not a string).
+func (i *introspectionVisitor) stringValue(value ast.Value) *string {
+	raw, err := i.definition.ValueToJSON(value)
+	if err != nil {
+		return nil
+	}
+	var out *string
+	if err := json.Unmarshal(raw, &out); err != nil {
+		return nil
+	}
+	return out
+}
+
 func (i *introspectionVisitor) deprecationReason(directiveRef int) (reason *string) {
 	argValue, exists := i.definition.DirectiveArgumentValueByName(directiveRef, []byte(DeprecationReasonArgName))
 	if exists {
-		reasonContent := i.definition.ValueContentString(argValue)
-		return &reasonContent
+		return i.stringValue(argValue)
 	}
 
 	defaultValue := i.definition.DirectiveDefinitionArgumentDefaultValueString(DeprecatedDirectiveName, DeprecationReasonArgName)
